@@ -30,7 +30,7 @@ META = {
     "level": "model_checking",
     "level_text": "TLC exhaustively explores all histories of up to 2 (quick; thorough: 2 with the wide alphabet and 3 with the narrow "
                   "one) operations from four initial histories (empty table; created instance with collections; loaded instance with "
-                  "static column; row made by a blind update) over an alphabet of 82 / 229 operations, small value domains (values 1..2, "
+                  "static column; row made by a blind update) over an alphabet of 84 / 231 operations, small value domains (values 1..2, "
                   "lists up to 3).  Each reachable edge is executed on the real mapper and decided by comparing the interpreter's "
                   "table, the instance and a fresh read with the specification; coverage of edges is reported (edges behind a "
                   "diverging edge cannot be replayed).",
@@ -318,6 +318,20 @@ def explore(ctx, M, mode, steps, wide, batch, label, by_signature, full=True, wa
     never = [i for i in range(1, len(ops) + 1) if i not in taken]
     if never:
         raise tlc.MachineryError("vacuity: operations never enabled in the %s graph (%s): %s" % (mode, label, [dict(ops[i - 1]) for i in never][:5]))
+    if mode == "row":
+        # a single save whose list grew at both ends, by different values (one clause with two placeholders)
+        both = 0
+        for sid, did, lab in edges:
+            op = ops[int(lab[lab.index("(") + 1:lab.index(")")]) - 1]
+            if op["name"] != "isave":
+                continue
+            pre, post = tuple(nodes[sid]["inst"]["cur"]["l"]), tuple(nodes[did]["inst"]["cur"]["l"])
+            for i in range(1, len(post) - len(pre)):
+                if pre and post[i:i + len(pre)] == pre and post[:i] != post[i + len(pre):] and nodes[did]["db"] != nodes[sid]["db"]:
+                    both += 1
+        if not both:
+            raise tlc.MachineryError("vacuity: no save of a list that grew at both ends by different values (%s)" % label)
+        ctx.note("saves_of_lists_grown_at_both_ends_%s" % label.split(",")[0].replace(" ", "_"), both)
     wanted = ROW_WITNESSES if mode == "row" else COUNTER_WITNESSES
     seen = set()
     for nd in nodes.values():
